@@ -27,6 +27,7 @@ def check(c: Check):
     clause_a(c)
     clause_b(c)
     clause_c(c)
+    clause_d(c)
 
 
 # ---------------------------------------------------------------- helpers
@@ -318,3 +319,36 @@ def clause_c(c: Check):
         c.expect(ok, 'C13-c', 'unknown-class@' + s.where,
                  'matchers of unknown kind are given the interval %s' % (unparse(a) if a is not None else None), s.loc)
     c.floor('C13-c', 'users of interval_of', n, 1)
+
+
+# ---------------------------------------------------------------- d
+def clause_d(c: Check):
+    """adaptions and inversions: an adaption (e.g. clamping to the line-number domain) returns a plain interval and
+    so forgets a custom inversion.  Where the caller goes on to use the *inversion* of the computed interval
+    (interval_of__w_inversion: the line-num matcher, negated at the line level) the adaption must be the identity."""
+    ix = c.ix
+    f = ix.func(MI + ':interval_of__w_inversion')
+    na = ix.func(MI + ':no_adaption')
+    r = single_return_expr(na)
+    c.expect(isinstance(r, ast.Name) and r.id == na.positional_params()[0].arg, 'C13-d', 'no_adaption/identity',
+             'no_adaption is not the identity', na.loc())
+    n = 0
+    for s in util.call_sites_of(ix, f):
+        if s.where.startswith(MI):
+            continue
+        n += 1
+        b = util.bound_call_args(f, s.node, False) or {}
+        a = b.get('interval_adaption')
+        d = ix.resolve_value(s.module, s.func, a) if a is not None else None
+        c.expect(d == na, 'C13-d', 'inversion-preserving-adaption@' + s.where,
+                 'the interval whose inversion is used later is computed with the adaption %s, which returns plain '
+                 'intervals: the custom inversion of `!= N` (and of negated / combined comparisons) is lost and a '
+                 'negation at the line level selects nothing' % (unparse(a) if a is not None else None), s.loc)
+    c.floor('C13-d', 'users of interval_of__w_inversion', n, 1)
+    # the computer itself takes inversions before adapting them
+    comp = ix.cls(MI + ':_IntervalComputer')
+    init = ix.class_member(comp, '__init__')
+    src = unparse(init.node)
+    ok = 'interval_adaption(interval_of_unknown_class.inversion)' in src.replace('self._', '').replace('self.', '')
+    c.expect(ok, 'C13-d', '_IntervalComputer/unknown-class-inversion-adapted-separately',
+             'the inversion of the unknown-class interval is not adapted separately from the interval', init.loc())
